@@ -575,10 +575,15 @@ fn random_stream(ctx: &mut Ctx, n: usize) {
     for case_no in 0..n {
         // names of this case: plain, or (every 4th case) names some stage treats specially, in several cases
         let special = case_no % 4 == 3;
-        let vars: Vec<&str> =
+        let mut vars: Vec<&str> =
             if special { (0..4).map(|_| *rng.pick(&SPECIAL_NAMES)).collect() } else { PLAIN_VARS.to_vec() };
-        let regions: Vec<&str> =
+        let mut regions: Vec<&str> =
             if special { (0..4).map(|_| *rng.pick(&SPECIAL_NAMES)).collect() } else { PLAIN_REGIONS.to_vec() };
+        // one entry per key in the maps built below
+        vars.sort();
+        vars.dedup();
+        regions.sort();
+        regions.dedup();
         // leaf alphabet of this case
         let mut leaves = vec![Expression::PiConstant()];
         for _ in 0..3 {
@@ -602,9 +607,6 @@ fn random_stream(ctx: &mut Ctx, n: usize) {
         let mut sigma: Subst = vec![];
         let mut sigma2: Subst = vec![];
         for v in &vars {
-            if rho.iter().any(|(k, _)| k == v) {
-                continue; // a repeated special name: one entry per key
-            }
             if rng.chance(1, 2) {
                 rho.push((v.to_string(), c(random_f64(&mut rng), random_f64(&mut rng))));
             }
@@ -628,9 +630,6 @@ fn random_stream(ctx: &mut Ctx, n: usize) {
         }
         let mut mu: MemEnv = vec![];
         for r in &regions {
-            if mu.iter().any(|(k, _)| k == r) {
-                continue;
-            }
             if rng.chance(3, 4) {
                 let len = rng.below(5) as usize;
                 mu.push((r.to_string(), (0..len).map(|_| random_f64(&mut rng)).collect()));
